@@ -209,11 +209,15 @@ pub fn client_core_data(parameter: Option<ClientData>) -> Component {
             name: "".to_string()
         });
 
-    let client_name = if client_parameter.name.len() >= 16 {
-        (&client_parameter.name[0..16]).to_string()
-    } else {
-        client_parameter.name.clone() + &"\x00".repeat(16 - client_parameter.name.len())
-    };
+    // clientName is a fixed field of 16 UTF-16 code units : at most 15 for the name and a null terminator
+    let mut client_name: Vec<u16> = client_parameter.name.encode_utf16().take(15).collect();
+    // never keep one half of a surrogate pair
+    if let Some(last) = client_name.last() {
+        if *last >= 0xD800 && *last < 0xDC00 {
+            client_name.pop();
+        }
+    }
+    client_name.resize(16, 0);
 
     component![
         "version" => U32::LE(client_parameter.rdp_version as u32),
@@ -223,7 +227,7 @@ pub fn client_core_data(parameter: Option<ClientData>) -> Component {
         "sasSequence" => U16::LE(Sequence::RnsUdSasDel as u16),
         "kbdLayout" => U32::LE(client_parameter.layout as u32),
         "clientBuild" => U32::LE(3790),
-        "clientName" => client_name.to_string().to_unicode(),
+        "clientName" => String::from_utf16_lossy(&client_name).to_unicode(),
         "keyboardType" => U32::LE(KeyboardType::Ibm101102Keys as u32),
         "keyboardSubType" => U32::LE(0),
         "keyboardFnKeys" => U32::LE(12),
